@@ -48,7 +48,8 @@ def run(ctx):
     # ---- R1: the intended design satisfies C27 for every configuration accepted by Verify (exhaustive)
     open(os.path.join(sd, "r1.cfg"), "w").write(CFG % dict(base, configs="CfgR1Quick" if q else "CfgR1Thorough",
                                                            keys="1, 2, 3"))
-    r1 = ctx.tlc(sd, "MC_ImmunityCache", "r1.cfg", timeout=1500, coverage=not q)
+    r1 = ctx.tlc(sd, "MC_ImmunityCache", "r1.cfg", timeout=1500, coverage=not q,
+                 extra=None if q else ["-coverage", "100000"])   # only the final coverage report
     if not q and r1.ok:
         zero = [z for z in r1.coverage_zero if z in ("NAdd", "NImmunize", "NRemove", "NGet", "NClear")]
         if zero:
@@ -130,7 +131,10 @@ def run(ctx):
                             e["st"]["nb"] -= vic[0]["z"]
                             return evs[:evs.index(e) + 1]
             return evs[:-1]
-        vlib.selftest_rejects(ctx, sd, "Trace_ImmunityCache", "Obs_ImmunityCache.cfg", tr, drop_immune)
+        src = ctx.path("selftest_src.ndjson")      # pristine copy: selftest_rejects overwrites trace.ndjson
+        with open(src, "w") as f:
+            f.write(open(tr).read())
+        vlib.selftest_rejects(ctx, sd, "Trace_ImmunityCache", "Obs_ImmunityCache.cfg", src, drop_immune)
 
         def corrupt_order(evs):
             for e in evs:
@@ -139,7 +143,7 @@ def run(ctx):
                         ch["items"] = list(reversed(ch["items"]))
                         return evs
             return evs[:-1]
-        vlib.selftest_rejects(ctx, sd, "Trace_ImmunityCache", "Trace_ImmunityCache.cfg", tr, corrupt_order)
+        vlib.selftest_rejects(ctx, sd, "Trace_ImmunityCache", "Trace_ImmunityCache.cfg", src, corrupt_order)
     ctx.cov(rule="R2: every transition of the specification's state graph (3 keys per chunk, sizes 0/1/3, one configuration "
                  "per class of per-chunk configuration incl. limits below the chunk count and configurations Verify "
                  "rejects) replayed on ImmunityCache and CrossTxCache; result, per-chunk item order, immune registry, "
